@@ -42,6 +42,8 @@ def known(tag, cond):
     the claim (the path is ignored).  Not active during replay, so the witness of the finding still fails."""
     if tag in ACTIVE_KNOWN and cond:
         from crosshair.util import IgnoreAttempt
+        if DEBUG:
+            sys.stderr.write('KNOWN %s\n' % tag)
         raise IgnoreAttempt('known finding ' + tag)
     return True
 
@@ -49,8 +51,28 @@ def known(tag, cond):
 def assume(cond):
     from crosshair.util import IgnoreAttempt
     if not cond:
+        if DEBUG:
+            fr = sys._getframe(1)
+            sys.stderr.write('ASSUME-FALSE %s:%d\n' % (fr.f_code.co_filename.rsplit('/', 1)[-1], fr.f_lineno))
         raise IgnoreAttempt('assume')
     return True
+
+
+def _refresh(node, depth=0):
+    name = type(node).__name__
+    if name in ('NodeStem', 'SearchLeaf') or depth > 5000:
+        return
+    for nm in ('child', 'positive', 'negative'):
+        ch = getattr(node, nm, None)
+        if ch is not None:
+            _refresh(ch, depth + 1)
+    if name == 'DetachedPathNode':
+        return
+    try:
+        r, e = node.compute_result(node.get_result())
+    except Exception:
+        return
+    node.result, node.exhausted = r, e
 
 
 def explore(fn, deadline_wall, region=None, max_paths=1000000, per_path_timeout=None,
@@ -164,6 +186,13 @@ def explore(fn, deadline_wall, region=None, max_paths=1000000, per_path_timeout=
         return res
     if exhausted:
         top = search_root.child.get_result()
+        if top.verification_status != VerificationStatus.CONFIRMED and res['unknown'] == 0 and res['confirmed'] > 0:
+            # CrossHair caches each node's merged result and has been seen to leave a stale UNKNOWN in a node whose
+            # children are all exhausted and CONFIRMED (0.0.110): refresh the caches bottom-up with the nodes' own
+            # compute_result before reading the verdict.  Unexplored stems still count as UNKNOWN.
+            _refresh(search_root.child)
+            top = search_root.child.get_result()
+            res['refreshed'] = True
         if top.verification_status == VerificationStatus.CONFIRMED and res['unknown'] == 0:
             if res['confirmed'] == 0:
                 res['status'] = 'VACUOUS'
